@@ -273,6 +273,8 @@ def template_match(f, template, mode='reflect', cval=0., out=None, output=None):
         ``s0`` and ``s1``).
     '''
     template = template.astype(f.dtype, copy=False)
+    if template.ndim != f.ndim:
+        raise ValueError('mahotas.template_match: template must have the same number of dimensions as f')
     output = _get_output(f, out, 'template_match', output=output)
     _check_mode(mode, cval, 'template_match')
     return _convolve.template_match(f, template, output, mode2int[mode], 0)
@@ -302,6 +304,8 @@ def find(f, template):
     if f.ndim != 2:
         raise ValueError('mahotas.find: Cannot handle multi-dimensional images')
     template = template.astype(f.dtype)
+    if template.ndim != 2:
+        raise ValueError('mahotas.find: template must be 2-dimensional')
     out = np.empty(f.shape, bool)
     return _convolve.find2d(f, template, out)
 
